@@ -221,6 +221,9 @@ def c_not(c):
     return ("not", c)
 
 
+# bodies in which every `<<` must be proven exact (length accumulation of the TLV header)
+LOSSLESS_SHL = {"ber::header::BerHeader::from_ber": (8,)}    # body -> shift amounts concerned (the long-form length: ln << 8)
+
 # Semantic probes: value relations checked at one site of one body, with trace partitioning switched on for that body.
 PROBES = {
     "ber::objectid::<impl std::convert::TryFrom<&ber::objectid::SnmpOid<'_>> for std::string::String>::try_from": {
@@ -751,6 +754,18 @@ class Engine:
         res = None
         if la is not None and lb is not None:
             res = self.arith(st, base, la, lb, rt)
+        if base == "Shl" and fr.depth == 0 and fr.body.path in LOSSLESS_SHL and self.recording and lb is not None and not lb.t and \
+                lb.c in LOSSLESS_SHL[fr.body.path]:
+            # a left shift silently drops the bits shifted out (no overflow check, in any profile): where a length is
+            # accumulated the shift must be proven exact
+            r_ = ty_range(rt)
+            exact = False
+            if la is not None and lb is not None and not lb.t and 0 <= lb.c < 128 and r_ is not None:
+                ex = la.scale(2 ** lb.c)
+                exact = st.entails(ex - r_[1]) and st.entails(Lin.const(r_[0]) - ex)
+            self.oblige(st, fr, self.site_key(fr, self.cur_block, "lossless-shl"), "lossless-shl", rv.get("line") or self.cur_line or 0,
+                        ("const", bool(exact)), "always", "" if exact else "bits can be shifted out of the accumulated value: a length above the type's range "
+                        "wraps to a small one instead of being refused")
         if with_ovf:
             r = ty_range(rt) or (-INF, INF)
             if res is None:
@@ -1698,6 +1713,11 @@ class Interp:
             if reads:
                 for a in args:
                     self.extent_escape(st, fr, a, "passed to %s" % (path or "?").split("::")[-1])
+        if fr.depth == 0 and fr.body.path in LOSSLESS_SHL and self.recording and (path or "").split("::")[-1] in ("checked_shl", "wrapping_shl", "overflowing_shl", "unbounded_shl"):
+            # these validate (or mask) the shift amount only: bits shifted out of the value are dropped silently
+            self.oblige(st, fr, self.site_key(fr, bidx, "lossless-shl"), "lossless-shl", t["line"], ("const", False), "always",
+                        "%s drops the bits shifted out of the accumulated value: a length above the type's range wraps to a small one instead of "
+                        "being refused" % (path or "").split("::")[-1])
         if self.probe is not None and fr.depth == 0:
             self.probe_collect(fr, bidx, st, t, path, args)
         # 1. models of external / well-known functions
